@@ -49,6 +49,19 @@ func runC05(c *Ctx) {
 	c05ReqRespPairing(c)
 	c05ResolvedKindGroup(c)
 	c05VersionLevelTable(c)
+	{
+		var lp []*packages.Package
+		for _, rel := range []string{pkgCheckHandle, pkgCheckUtil, "private/bufpkg/bufprotosource", "private/pkg/stringutil", "private/pkg/protoversion"} {
+			if q := p.Pkg(rel); q != nil {
+				lp = append(lp, q)
+			}
+		}
+		ruleFlagLoop(c, "R-FLAGLOOP", lp)
+		rulePathSetFresh(c, "PATH-SET-FRESH", lp, 1)
+		if q := p.Pkg("private/bufpkg/bufprotosource"); q != nil {
+			ruleSettersCalled(c, "SETTERS-CALLED", q, 3)
+		}
+	}
 	c05RekeyByIdentity(c)
 
 	t := extractCheckTables(p)
